@@ -127,11 +127,11 @@ Proof.
     destruct (eval_spec _ _ _ W E) as (W1 & A2 & A3 & A4).
     destruct (IH _ _ _ W1 E2) as (W2 & B2 & B3 & B4 & B5).
     split; [exact W2|]. split; [lia|]. split; [|split].
-    + constructor; [|exact B3]. eapply good_mono; [eapply eval_good; eauto | lia].
+    + constructor; [|exact B3]. apply (good_mono (evals st1)); [exact (eval_good _ _ _ W E) | lia].
     + cbn. lia.
     + intros l HC.
       assert (HC1 : covers (evals st1) (l ++ [e])).
-      { eapply covers_step; eauto.
+      { apply (covers_step st e st1 l); auto.
         - intros x Hx. exists x. split; [apply in_or_app; left; exact Hx | lia].
         - exists e. split; [apply in_or_app; right; left; reflexivity | lia]. }
       specialize (B5 _ HC1). rewrite <- app_assoc in B5. exact B5.
